@@ -249,34 +249,40 @@ func (l *BlockchainRpcTxWatcher) checkTxAboveCsvHight(txId string, vout, csv uin
 }
 
 func (l *BlockchainRpcTxWatcher) AddWaitForCsvTx(swapId, txId string, vout uint32, startingBlockheight, csv uint32, _ []byte) {
-	l.Lock()
-	l.csvtxWatchList[swapId] = &SwapTxInfo{
-		TxId:                txId,
-		TxVout:              vout,
-		Csv:                 csv,
-		StartingBlockHeight: startingBlockheight,
+	register := func() {
+		l.Lock()
+		l.csvtxWatchList[swapId] = &SwapTxInfo{
+			TxId:                txId,
+			TxVout:              vout,
+			Csv:                 csv,
+			StartingBlockHeight: startingBlockheight,
+		}
+		l.Unlock()
 	}
-	l.Unlock()
 
 	// Before waiting for the next block we check if the tx is already above
-	// the csv limit. The callback re-enters the swap's state machine, whose
-	// lock is held by the action that is calling us, so it must not run on
-	// this goroutine.
+	// the csv limit. Whoever reports the swap must be the only one to do so:
+	// the swap is put on the list that the block handler works through only
+	// if it is not reported from here (or if reporting it from here failed).
 	above, err := l.checkTxAboveCsvHight(txId, vout, csv)
 	if err != nil {
 		log.Infof("[TxWatcher] checkTxAboveCsvHeight returned: %s", err.Error())
+		register()
 		return
 	}
 	if !above {
+		register()
 		return
 	}
+	// The callback re-enters the swap's state machine, whose lock is held by
+	// the action that is calling us, so it must not run on this goroutine.
 	go func() {
 		if err := l.csvPassedCallback(swapId); err != nil {
 			log.Infof("csv passed callback error: %v", err)
+			register()
 			return
 		}
 		log.Infof("Swap %s already past CSV limit", swapId)
-		l.TxClaimed([]string{swapId})
 	}()
 }
 
